@@ -767,7 +767,29 @@ func (w *vmWalker) stmt(s ast.Stmt, in []*vmState) []*vmState {
 			cur = w.effects(r, cur)
 		}
 		normal := w.fnMode && len(s.Results) > 0 && isIdent(s.Results[len(s.Results)-1], "nil")
-		if normal {
+		// `return helper(...)` forwarding a helper's results (the last of which is an error): the path may end
+		// normally or with an error - it counts as both
+		forwards := false
+		if w.fnMode && len(s.Results) == 1 {
+			if call, ok := s.Results[0].(*ast.CallExpr); ok {
+				if tv, ok := w.m.pkg.TypesInfo.Types[call]; ok {
+					if tup, ok := tv.Type.(*types.Tuple); ok && tup.Len() > 0 && types.TypeString(tup.At(tup.Len()-1).Type(), nil) == "error" {
+						forwards = true
+					}
+					if types.TypeString(tv.Type, nil) == "error" {
+						forwards = true
+					}
+				}
+			}
+		}
+		if forwards {
+			var keep []*vmState
+			for _, st := range cur {
+				keep = append(keep, st.clone())
+				w.results = append(w.results, &vmPathResult{st: st, kind: 0})
+			}
+			w.leave(keep)
+		} else if normal {
 			for _, st := range cur {
 				w.results = append(w.results, &vmPathResult{st: st, kind: 0})
 			}
